@@ -545,6 +545,22 @@ class SoftUpdateReal(Case):
             agent = build_agent(self.algo)
             if self.variant == "clone":
                 agent = agent.clone()
+            elif self.variant == "mutation":
+                # directly after a (real) architecture mutation of the whole agent
+                from agilerl.hpo.mutation import Mutations
+                agent = Mutations(0, 1, 0.5, 0, 0, 0, rand_seed=5).architecture_mutate(agent)
+            elif self.variant == "checkpoint":
+                # directly after a checkpoint round-trip into the same agent
+                import os
+                import tempfile
+                d = tempfile.mkdtemp(prefix="verif_c08_", dir="/var/tmp")
+                try:
+                    path = os.path.join(d, "agent.pt")
+                    agent.save_checkpoint(path)
+                    agent.load_checkpoint(path)
+                finally:
+                    import shutil
+                    shutil.rmtree(d, ignore_errors=True)
         except Exception as ex:   # noqa: BLE001
             raise HarnessError(f"could not build the {self.algo} agent: {type(ex).__name__}: {ex}")
         tau = v.real("tau")
@@ -610,6 +626,7 @@ def cases(tier):
     cs = [QLearn("DQN", False), QLearn("DQN", True), QLearn("CQN", False), QLearn("CQN", True),
           ACLearn("DDPG"), ACLearn("TD3"), ACLearn("TD3", B=1, freq=3), MALearn("MADDPG"), MALearn("MATD3")]
     cs += [SoftUpdateReal(a) for a in ("DQN", "CQN", "RainbowDQN", "DDPG", "TD3", "MADDPG", "MATD3")]
+    cs += [SoftUpdateReal("DQN", "mutation"), SoftUpdateReal("DQN", "checkpoint"), SoftUpdateReal("DDPG", "mutation"), SoftUpdateReal("CQN", "checkpoint")]
     cs += [SoftUpdateReal("DQN", "clone"), SoftUpdateReal("TD3", "clone"), SoftUpdateReal("DQN", "second-step"), SoftUpdateReal("CQN", "second-step"),
            SoftUpdateReal("RainbowDQN", "second-step"), SoftUpdateReal("DDPG", "second-step")]
     # Rainbow's learn(): which batch, done flag and discount feed the 1-step / n-step losses (harness shared with C18)
@@ -620,4 +637,6 @@ def cases(tier):
                MALearn("MADDPG", B=2, N=3), MALearn("MATD3", B=2, N=3, freq=3)]
         cs += [SoftUpdateReal(a, "clone") for a in ("CQN", "RainbowDQN", "DDPG", "MADDPG", "MATD3")]
         cs += [SoftUpdateReal(a, "second-step") for a in ("TD3", "MADDPG", "MATD3")]
+        cs += [SoftUpdateReal(a, "mutation") for a in ("CQN", "RainbowDQN", "TD3", "MADDPG", "MATD3")]
+        cs += [SoftUpdateReal(a, "checkpoint") for a in ("RainbowDQN", "DDPG", "TD3", "MADDPG")]
     return cs
